@@ -715,7 +715,7 @@ where
     let job_futures: FuturesUnordered<Pin<Box<dyn Future<Output = ()>>>> = FuturesUnordered::new();
     pin_mut!(job_futures);
     {
-        let mut seen: HashSet<RedoPathBuf> = HashSet::new();
+        let mut seen: HashSet<i64> = HashSet::new();
         for i in target_order.iter().copied() {
             let t = targets[i].as_ref();
             if t.is_empty() {
@@ -724,10 +724,6 @@ where
                 break;
             }
             assert!(ps_ref.borrow().is_flushed());
-            if seen.contains(t) {
-                continue;
-            }
-            seen.insert(t.into());
             // TODO(maybe): Commit state if !has_token.
             let token_future = server.ensure_token_or_cheat(t.as_str(), &mut cheat).fuse();
             pin_mut!(token_future);
@@ -750,6 +746,10 @@ where
                     .map_err(RedoError::opaque_error)?;
                 ptx.set_drop_behavior(DropBehavior::Commit);
                 let mut f = state::File::from_name(&mut ptx, t, true)?;
+                if !seen.insert(f.id()) {
+                    // Another spelling of a target this command already handled.
+                    continue;
+                }
                 let mut lock = ptx.state().new_lock(f.id().try_into().unwrap());
                 if ptx.state().env().unlocked {
                     lock.force_owned();
